@@ -60,6 +60,9 @@ class RProxy(R):
 
 def rnd_obj(rng, text: str, cls=R):
     r = rng.random()
+    if 0.86 < r <= 0.92:
+        # a long (pure ASCII) repr: a big list, a bytes object, a dataclass with many fields
+        return cls(text + " " + "x" * rng.choice([290, 301, 1000]))
     if r > 0.92:
         return RProxy(text)
     if r < 0.12:
